@@ -466,6 +466,16 @@ func genC05(tier string, r *core.Rand) PeerPlan {
 	}
 	p.EarlyFQ = r.Chance(0.15)
 	p.HastyFQ = r.Chance(0.15)
+	if !pp.LibMaster && r.Chance(0.2) {
+		// a challenge: the ;FW line then carries address|hash entries
+		p.Challenge = fmt.Sprintf("%08d", r.Intn(100000000))
+		pp.Passwords = map[string]string{strings.ToUpper(pp.Lib.Call): "pWprimary1"}
+		for i, a := range pp.Aux {
+			if r.Chance(0.7) {
+				pp.Passwords[a] = fmt.Sprintf("pWaux%d", i)
+			}
+		}
+	}
 	pp.RefCodec = r.Bool()
 	return pp
 }
@@ -479,9 +489,14 @@ func execC05(t *testing.T, prop string, raw json.RawMessage, trace bool) core.Ou
 	}
 	pp.Peer.Byzantine = false
 	pp.Peer.Mut = nil
-	pp.Peer.Challenge = ""
+	if len(pp.Passwords) == 0 || pp.LibMaster || pp.NoCallback {
+		pp.Peer.Challenge = "" // secure login is C16's business; here it only shapes the ;FW line
+	}
 	leak, pv, stack := core.Bubble(t, trace, func(sim *core.Sim) {
 		pr := runPeerSession(sim, pp)
+		if pp.Peer.Challenge != "" {
+			sim.Probe("session-with-secure-login")
+		}
 		checkC05(sim, prop, pp, pr)
 		n := len(pr.peer.Received) + len(pr.peer.Sent)
 		out.NonTrivial = n > 0
